@@ -754,6 +754,48 @@ def run_server(ctx, reps):
                            "cipher with the registered key", {"kind": "server"})
             if (get_value(base).get("value") or "") != key.hex():
                 ctx.report("c06:stored-key-changed-by-wrapped-get", "Get no longer returns the registered key bytes", {"kind": "server"})
+            # authenticated encryption through the server: "authenticated modes reject ANY change to ciphertext, tag or
+            # associated data" - whatever optional parameters the Decrypt request carries (a Tag Length shorter than
+            # the tag it sends, a Tag Length of the tag's length, none)
+            gk = rb(16)
+            G_ = register(gk, 3, 4 | 8)
+            gpt, nonce, aad = rb(r.choice([1, 16, 40])), rb(12), rb(r.choice([0, 7]))
+            gcp = {"mode": 9, "padding": None, "alg": 3, "taglen": 16}
+            er = Eg.handle({"cmd": "req", "now": 1000, "id": {"user": "alice", "groups": None},
+                            "req": {"version": 14, "ts": None, "async": None, "bopt": None, "maxsize": None, "items": [
+                                dict({"op": "encrypt", "bid": None, "crypto": None, "uid": G_, "params": True, "cp": gcp,
+                                      "data_hex": gpt.hex(), "iv_hex": nonce.hex()}, **({"aad_hex": aad.hex()} if aad else {}))]}})
+            e0 = (er.get("results") or [{}])[0]
+            count += 1
+            if e0.get("status") == "ok" and e0.get("_tag"):
+                ct, tag = bytes.fromhex(e0["data"]["c"]), bytes.fromhex(e0["_tag"])
+
+                def dec(ct_, tag_, aad_, taglen):
+                    it = {"op": "decrypt", "bid": None, "crypto": None, "uid": G_, "params": True,
+                          "cp": dict(gcp, taglen=taglen), "data_hex": ct_.hex(), "iv_hex": nonce.hex(), "tag_hex": tag_.hex()}
+                    if aad_:
+                        it["aad_hex"] = aad_.hex()
+                    return req([it])[0]
+
+                def flip(b, i):
+                    x = bytearray(b)
+                    x[i] ^= 0x20
+                    return bytes(x)
+                for taglen in (16, 12, 8, 4, None):
+                    good = dec(ct, tag, aad, taglen)
+                    count += 1
+                    if taglen in (16, None) and not (good.get("status") == "ok" and bytes.fromhex(good["data"]["c"]) == gpt):
+                        ctx.report("c06:server-gcm-decrypt-not-inverse", "GCM Decrypt(Encrypt(m)) != m through the server "
+                                   "(Tag Length %s)" % taglen, {"kind": "server"})
+                    for what, args in (("tag byte 15", (ct, flip(tag, 15), aad)), ("tag byte 13", (ct, flip(tag, 13), aad)),
+                                       ("tag byte 0", (ct, flip(tag, 0), aad)), ("ciphertext", (flip(ct, 0), tag, aad)),
+                                       ("associated data", (ct, tag, flip(aad, 0) if aad else b"x"))):
+                        bad = dec(args[0], args[1], args[2], taglen)
+                        count += 1
+                        if bad.get("status") == "ok":
+                            ctx.report("c06:server-gcm-accepts-tampered:%s" % what.replace(" ", "-"),
+                                       "GCM Decrypt with Tag Length %s in the request accepted a message whose %s was changed "
+                                       "(the tag sent has 16 bytes)" % (taglen, what), {"kind": "server"})
             # block ciphers of DIFFERENT block sizes with the same padding method, alternating on the one server
             # process: each ciphertext equals an independent use of that cipher (padding to ITS block size)
             k3 = rb(24)
